@@ -63,7 +63,7 @@ theorem inv_trim (c r : Circuit) (hc : c.Inv) (h : c.trimQubits = .ok r) : r.Inv
   · rename_i gs hgs
     simp only [pure, Except.pure] at h
     injection h with h; subst h
-    apply inv_remap c _ gs _ hc hgs
+    refine inv_remap c _ gs _ hc hgs ?_ (range_sorted _)
     intro q hq
     -- the image of `l.zipIdx` is `range l.length`
     obtain ⟨p, hp, rfl⟩ := List.mem_map.mp hq
@@ -82,7 +82,7 @@ theorem inv_reindex (c r : Circuit) (idx : List Nat) (hc : c.Inv) (h : c.reindex
     · rename_i gs hgs
       simp only [pure, Except.pure] at h
       injection h with h; subst h
-      apply inv_remap c _ gs _ hc hgs
+      refine inv_remap c _ gs _ hc hgs ?_ (foldl_setInsert_sorted _ _ (by simp))
       intro q hq
       obtain ⟨p, hp, rfl⟩ := List.mem_map.mp hq
       simp only [setOfList, mem_foldl_setInsert]
@@ -175,26 +175,11 @@ theorem meta_recomputed (c : Circuit) (hc : c.Inv) :
       · exact Or.inl ⟨g, hg, h⟩
       · exact Or.inr ⟨g, hg, h⟩
 
-theorem le_getLast_of_sorted (l : List Nat) (hs : l.Pairwise (· < ·)) (hne : l ≠ []) (q : Nat) (hq : q ∈ l) :
-    q ≤ l.getLast hne := by
-  induction l with
-  | nil => exact absurd rfl hne
-  | cons x xs ih =>
-    cases xs with
-    | nil => simp at hq; simp [hq]
-    | cons y ys =>
-      have hp := List.pairwise_cons.mp hs
-      rw [List.getLast_cons (List.cons_ne_nil y ys)]
-      rcases List.mem_cons.mp hq with e | e
-      · subst e
-        have hy := hp.1 ((y :: ys).getLast (List.cons_ne_nil y ys)) (List.getLast_mem _)
-        omega
-      · exact ih hp.2 (List.cons_ne_nil y ys) e
-
 /-- every qubit a gate touches is below the reported width -/
-theorem used_lt_width (c : Circuit) (hc : c.Inv) (hs : c.indices.Pairwise (· < ·)) :
+theorem used_lt_width (c : Circuit) (hc : c.Inv) :
     ∀ g ∈ c.gates, ∀ q ∈ g.qubits, q < c.width := by
   intro g hg q hq
+  have hs := hc.sorted
   have hm := hc.used g hg q hq
   have hne : c.indices ≠ [] := by intro e; simp [e] at hm
   have := le_getLast_of_sorted c.indices hs hne q hm
@@ -634,5 +619,47 @@ theorem run_preserves (d : Decide) (ops : List COp) (s : Store) (hs : AllInv s) 
 
 theorem reachable_inv (d : Decide) (ops : List COp) : AllInv (run d [] ops) :=
   run_preserves d ops [] (fun _ h => by simp at h)
+
+/-- **fixed width**: a circuit built with `n_qubits = n > 0` reports width `n` whatever its gates -/
+theorem width_ofGates_fixed (gs : List Gate) (n : Nat) (c : Circuit) (h : Circuit.ofGates gs (some (n + 1)) = .ok c) :
+    c.width = n + 1 := by
+  have hinv := Circuit.inv_ofGates gs _ c h
+  have hb := addGates_fixed_bound gs _ c n (by simp [Circuit.empty]) h
+  have hm := mem_indices_addGates gs _ c h
+  have : c.indices.getLast? = some n := by
+    apply width_of_sorted _ hinv.sorted
+    · rw [hm]; left; simp [Circuit.empty, Circuit.truthy]
+    · intro q hq
+      rcases (hm q).mp hq with e | ⟨g, hg, hq⟩
+      · simp [Circuit.empty, Circuit.truthy] at e; omega
+      · have := hb.2 g hg q hq; omega
+  simp [Circuit.width, this]
+
+/-- **free width**: without `n_qubits`, the width is one more than the largest qubit index any gate touches
+    (0 for no gates) -/
+theorem width_ofGates_free (gs : List Gate) (c : Circuit) (h : Circuit.ofGates gs Option.none = .ok c) :
+    (∀ g ∈ gs, ∀ q ∈ g.qubits, q < c.width) ∧ (c.width = 0 ∨ ∃ g ∈ gs, c.width - 1 ∈ g.qubits) := by
+  have hinv := Circuit.inv_ofGates gs _ c h
+  have hg := Circuit.gates_ofGates gs _ c h
+  have hm := mem_indices_addGates gs _ c h
+  refine ⟨?_, ?_⟩
+  · have := used_lt_width c hinv
+    rw [hg] at this
+    exact this
+  · unfold Circuit.width
+    cases hl : c.indices.getLast? with
+    | none => left; rfl
+    | some m =>
+      right
+      have hmem : m ∈ c.indices := List.mem_of_getLast? hl
+      rcases (hm m).mp hmem with e | e
+      · simp [Circuit.empty, Circuit.truthy] at e
+      · simpa using e
+
+/-- **C11, width**: after any finite history of operations every stored circuit has all the qubits its gates
+    touch strictly below the width it reports -/
+theorem reachable_used_lt_width (d : Decide) (ops : List COp) :
+    ∀ p ∈ run d [] ops, ∀ g ∈ p.2.gates, ∀ q ∈ g.qubits, q < p.2.width :=
+  fun p hp => used_lt_width p.2 (reachable_inv d ops p hp)
 
 end Tangelo.C11
